@@ -296,6 +296,32 @@ impl Impl {
         }
     }
 }
+impl Impl {
+    /// the executor's other entry points to the same behaviour: path 1 = the fast path (get_direct / set_direct, used by
+    /// the sharded actor's Fast*/Pooled* messages) for GET and plain SET; path 2 = execute_readonly (&self) for GET,
+    /// EXISTS and KEYS *; path 3 = execute_read for read-only commands; anything else (and path 0) = execute.
+    pub fn exec_via(&mut self, c: &MCmd, path: u8) -> Result<(RespValue, &'static str), String> {
+        let rc = c.to_rust();
+        let ex = &mut self.ex;
+        let r = catch_unwind(AssertUnwindSafe(|| match (path, c) {
+            (1, MCmd::Get(k)) => (ex.get_direct(k), "get_direct"),
+            (1, MCmd::Set(k, v, XOpt::None, false, false, false)) => (ex.set_direct(k, v), "set_direct"),
+            (2, MCmd::Get(_)) | (2, MCmd::Exists(_)) | (2, MCmd::Keys) => (ex.execute_readonly(&rc), "execute_readonly"),
+            (3, _) if rc.is_read_only() => (ex.execute_read(&rc), "execute_read"),
+            _ => (ex.execute(&rc), "execute"),
+        }));
+        match r { Ok(x) => Ok(x), Err(e) => { self.dead = true; Err(panic_text(e)) } }
+    }
+    /// the TTL manager's entry: sets the clock and evicts (CommandExecutor::evict_expired_direct)
+    pub fn set_time_evict_direct(&mut self, t: u64) -> Result<(), String> {
+        self.now = t;
+        let ex = &mut self.ex;
+        match catch_unwind(AssertUnwindSafe(|| { ex.evict_expired_direct(VirtualTime::from_millis(t)); })) {
+            Ok(()) => Ok(()),
+            Err(e) => { self.dead = true; Err(panic_text(e)) }
+        }
+    }
+}
 pub fn panic_text(e: Box<dyn std::any::Any + Send>) -> String {
     if let Some(s) = e.downcast_ref::<String>() { s.clone() } else if let Some(s) = e.downcast_ref::<&str>() { s.to_string() } else { "panic".into() }
 }
@@ -341,6 +367,22 @@ pub fn snapshot(im: &mut Impl, keys: &[&str]) -> Result<Snapshot, String> {
             o => Dump::X(format!("TYPE {}", o)),
         };
         let p = match im.exec(&Command::Pttl(ks.clone()))? { RespValue::Integer(i) => i, _ => i64::MIN };
+        // the other views of the same value must agree with the dump: lengths, and for a sorted set (two indexes: the
+        // member->score map and the skiplist) ZSCORE and ZRANK of every member
+        let d = match d {
+            Dump::S(b) => if im.exec(&Command::StrLen(ks.clone()))? == RespValue::Integer(b.len() as i64) { Dump::S(b) } else { Dump::X("STRLEN disagrees with GET".into()) },
+            Dump::L(v) => if im.exec(&Command::LLen(ks.clone()))? == RespValue::Integer(v.len() as i64) { Dump::L(v) } else { Dump::X("LLEN disagrees with LRANGE".into()) },
+            Dump::T(v) => if im.exec(&Command::SCard(ks.clone()))? == RespValue::Integer(v.len() as i64) { Dump::T(v) } else { Dump::X("SCARD disagrees with SMEMBERS".into()) },
+            Dump::H(v) => if im.exec(&Command::HLen(ks.clone()))? == RespValue::Integer(v.len() as i64) { Dump::H(v) } else { Dump::X("HLEN disagrees with HGETALL".into()) },
+            Dump::Z(v) => {
+                let mut bad = im.exec(&Command::ZCard(ks.clone()))? != RespValue::Integer(v.len() as i64);
+                if v.len() <= 8 { for (idx, (m, s)) in v.iter().enumerate() {
+                    if im.exec(&Command::ZScore(ks.clone(), SDS::new(m.clone())))? != RespValue::BulkString(Some(s.to_string().into_bytes())) { bad = true; }
+                    if im.exec(&Command::ZRank(ks.clone(), SDS::new(m.clone())))? != RespValue::Integer(idx as i64) { bad = true; }
+                } }
+                if bad { Dump::X("ZCARD/ZSCORE/ZRANK disagree with ZRANGE".into()) } else { Dump::Z(v) } }
+            o => o,
+        };
         out.push((ks, d, p));
     }
     // the whole keyspace: DBSIZE and KEYS * must show exactly the keys seen above (an extra key - one
@@ -365,9 +407,29 @@ pub fn dump_of_value(v: &redis_sim::redis::Value) -> Dump {
         Value::Set(s) => { let mut m: Vec<B> = s.members().iter().map(|s| s.as_bytes().to_vec()).collect(); m.sort(); Dump::T(m) }
         Value::Hash(h) => { let mut p: Vec<(B, B)> = h.get_all().iter().map(|(f, x)| (f.as_bytes().to_vec(), x.as_bytes().to_vec())).collect(); p.sort(); Dump::H(p) }
         Value::SortedSet(z) => { let r = z.range(0, -1);
-            if r.iter().all(|(_, s)| s.is_finite() && s.fract() == 0.0 && s.abs() < 9.0e15) { Dump::Z(r.iter().map(|(m, s)| (m.as_bytes().to_vec(), *s as i64)).collect()) }
+            if r.iter().all(|(_, s)| s.is_finite() && s.fract() == 0.0 && s.abs() <= 9007199254740992.0) { Dump::Z(r.iter().map(|(m, s)| (m.as_bytes().to_vec(), *s as i64)).collect()) }
             else { Dump::X("non-integer score".into()) } }
         Value::Null => Dump::X("Value::Null".into()),
+    }
+}
+
+/// Every field of a stored value as text - not the type's own PartialEq (RedisSortedSet's compares the member map only):
+/// for a sorted set the skiplist order with the score bits, the skiplist length, and the member map's view of each member.
+pub fn full_dump(v: &redis_sim::redis::Value) -> String {
+    use redis_sim::redis::Value;
+    match v {
+        Value::SortedSet(z) => {
+            let r = z.range(0, -1); let rr = z.rev_range(0, -1);
+            format!("zset len={} skiplist_len={} sorted={} order=[{}] rev=[{}] map=[{}]", z.len(), z.skiplist_len(), z.is_sorted(),
+                r.iter().map(|(m, s)| format!("{}:{:016x}", m.as_bytes().escape_ascii(), s.to_bits())).collect::<Vec<_>>().join(","),
+                rr.iter().map(|(m, _)| format!("{}", m.as_bytes().escape_ascii())).collect::<Vec<_>>().join(","),
+                r.iter().map(|(m, _)| format!("{:?}/{:?}", z.score(m).map(|s| s.to_bits()), z.rank(m))).collect::<Vec<_>>().join(","))
+        }
+        Value::List(l) => format!("list len={} [{}]", l.len(), l.range(0, -1).iter().map(|s| format!("{}", s.as_bytes().escape_ascii())).collect::<Vec<_>>().join(",")),
+        Value::Set(s) => { let mut m: Vec<String> = s.members().iter().map(|s| format!("{}", s.as_bytes().escape_ascii())).collect(); m.sort(); format!("set len={} {{{}}}", s.len(), m.join(",")) }
+        Value::Hash(h) => { let mut m: Vec<String> = h.get_all().iter().map(|(f, x)| format!("{}={}", f.as_bytes().escape_ascii(), x.as_bytes().escape_ascii())).collect(); m.sort(); format!("hash len={} {{{}}}", h.len(), m.join(",")) }
+        Value::String(s) => format!("string len={} {}", s.len(), s.as_bytes().escape_ascii()),
+        Value::Null => "null".into(),
     }
 }
 
@@ -451,7 +513,15 @@ impl<'a> Gen<'a> {
         let p = if self.hot { 0.45 } else { 0.8 };
         if self.chance(p) { self.pick(home).to_string() } else { self.pick(&KEYS).to_string() }
     }
-    pub fn val(&mut self) -> B { self.pick(&STR_VALS).to_vec() }
+    /// mostly the small pool; 7 %: a value whose length sits on a boundary of the code (SDS inline capacity 23, OBJECT
+    /// ENCODING embstr limit 44, 64/128/256, 1 KiB; C17's implementation-only part adds 64 KiB..1 MiB values) so that APPEND/SETRANGE/GETRANGE cross them
+    pub fn val(&mut self) -> B {
+        if self.chance(0.05) { let n = self.pick(&[21usize, 22, 23, 24, 25, 22, 23, 24, 43, 44, 45, 63, 64, 65, 127, 128, 129, 255, 256, 257, 1024, 1025]);
+                               let c = self.pick(&[b'x', b'7', 0u8, 0xffu8]); return vec![c; n]; }
+        self.pick(&STR_VALS).to_vec()
+    }
+    /// n distinct short members m0..m{n-1}
+    pub fn many_members(&mut self, n: usize) -> Vec<B> { (0..n).map(|i| format!("m{}", i).into_bytes()).collect() }
     pub fn member(&mut self) -> B { self.pick(&MEMBERS).to_vec() }
     pub fn field(&mut self) -> B { self.pick(&FIELDS).to_vec() }
     pub fn vals(&mut self, lo: usize, hi: usize) -> Vec<B> { let n = self.rng.gen_range(lo..=hi); (0..n).map(|_| self.val()).collect() }
@@ -472,6 +542,8 @@ impl<'a> Gen<'a> {
         }
     }
     pub fn score(&mut self) -> i64 {
+        // (2^53 and 2^53 - 1 are the largest scores a double holds exactly; both print as plain integers)
+        if self.chance(0.04) { return self.pick(&[9007199254740992i64, 9007199254740991, -9007199254740992, -9007199254740991]); }
         match self.rng.gen_range(0..10) { 0 => -3, 1 => 1000000, 2 => -1000000, _ => self.rng.gen_range(-2..=5) }
     }
     pub fn zbound(&mut self) -> ZB {
@@ -642,6 +714,17 @@ impl<'a> Gen<'a> {
         if let Some(c) = self.pending.pop() { return c; }
         if !self.stale.is_empty() && self.chance(0.5) { if let Some(c) = self.stale_scenario() { return c; } }
         if self.chance(0.22) { if let Some(c) = self.scenario() { return c; } }
+        // collections around the sizes the code treats specially (listpack limit 128 of OBJECT ENCODING, skiplist levels):
+        // exactly 127 / 128 / 129 / 130 elements, pushed in one command or on top of what is there
+        if self.chance(0.01) {
+            let n = self.pick(&[33usize, 64, 127, 128, 129, 130]);
+            let ms = self.many_members(n);
+            return match self.rng.gen_range(0..4) {
+                0 => MCmd::RPush("l".into(), ms), 1 => MCmd::SAdd("s".into(), ms),
+                2 => MCmd::HSet("h".into(), ms.into_iter().map(|m| (m, b"1".to_vec())).collect()),
+                _ => MCmd::ZAdd("z".into(), ms.into_iter().enumerate().map(|(i, m)| ((i % 7) as i64 - 3, m)).collect(), false, false, false, false, false),
+            };
+        }
         self.cmd_random()
     }
 
